@@ -1087,3 +1087,140 @@ Theorem C16_zsh_generate_ok_nonvacuous :
     reach b [[104; 101; 108; 112]; [97; 100; 100]; [120]] [[104; 101; 108; 112]; [97; 100; 100]; [120]] m.
 Proof. exact generate_zsh_ok_example. Qed.
 Print Assumptions C16_zsh_generate_ok_nonvacuous.
+
+(* ---- bash: the value branch, and the table for the tree the user wrote (round 3) ---- *)
+(** [Complete/BashValues.v].  The [case "${prev}"] branch of the completion function.  [opt_keys o] = the labels of the arms
+    of option [o]: [--]long and visible aliases, [-]short and visible short aliases.  After the words of a path to [n], a
+    spelling [key] of an option [o] of [n] (unique among the options of [n]: clap's own check) and a partial word that does not
+    start with [-], the function replies what the arm of [o] says ([vals_kind o]; [None] = the reply comes from the file system) *)
+From ClapModel Require Complete.BashValues Complete.BashUser.
+Theorem C16_bash_value_branch : forall c root_bin t w0 ws ns n o key cur,
+  c_bin c = Some root_bin -> linked c -> mangle_safe c root_bin -> bash_table c = Some t ->
+  reach c ws ns n -> w0 <> [] -> Forall (fun w => w <> []) ws ->
+  In o (get_opts n) -> In key (BashValues.opt_keys o) ->
+  (forall o', In o' (get_opts n) -> In key (BashValues.opt_keys o') -> o' = o) ->
+  (forall sc, In sc (c_subs n) -> ~ In key (sc_words sc)) ->
+  (forall sc, In sc (c_subs n) -> ~ In cur (sc_words sc)) ->
+  starts_with cur [45] = false ->
+  bash_complete t (w0 :: ws ++ [key; cur]) =
+  match vals_kind o with
+  | VWords l => Some (compgen_W l cur) | VCur => Some [cur] | VNothing => Some [] | VFiles => None
+  end.
+Proof. exact BashValues.bash_value_branch. Qed.
+Print Assumptions C16_bash_value_branch.
+
+(** an option with possible values: the reply is EXACTLY the non-hidden possible values that start with the partial word,
+    whatever the value hint -- [Other], [DirPath], ... -- except [FilePath] (refuted below).  The statement the seeded change
+    "an explicit ValueHint::Other / DirPath shadows the possible values" violates *)
+Theorem C16_bash_value_offers_possible_values : forall c root_bin t w0 ws ns n o key cur vs,
+  c_bin c = Some root_bin -> linked c -> mangle_safe c root_bin -> bash_table c = Some t ->
+  reach c ws ns n -> w0 <> [] -> Forall (fun w => w <> []) ws ->
+  In o (get_opts n) -> In key (BashValues.opt_keys o) ->
+  (forall o', In o' (get_opts n) -> In key (BashValues.opt_keys o') -> o' = o) ->
+  (forall sc, In sc (c_subs n) -> ~ In key (sc_words sc)) ->
+  (forall sc, In sc (c_subs n) -> ~ In cur (sc_words sc)) ->
+  starts_with cur [45] = false ->
+  possible_values o = Some vs -> a_get_hint o <> HFilePath ->
+  exists reply, bash_complete t (w0 :: ws ++ [key; cur]) = Some reply /\
+    forall w, In w reply <-> (exists pv, In pv vs /\ pv_hide pv = false /\ w = pv_name pv) /\ exists tl, w = cur ++ tl.
+Proof. exact BashValues.bash_value_offers_possible_values. Qed.
+Print Assumptions C16_bash_value_offers_possible_values.
+
+(** the TEXT of the arm ([vals_for]): [$(compgen -W "v1 v2 .." -- "${cur}")] over the non-hidden values, whatever the hint;
+    without possible values the hint decides *)
+Theorem C16_bash_value_arm_text : forall o vs,
+  possible_values o = Some vs ->
+  vals_for o = [36; 40; 99; 111; 109; 112; 103; 101; 110; 32; 45; 87; 32; 34]
+               ++ intercalate [32] (map pv_name (filter (fun pv => negb (pv_hide pv)) vs))
+               ++ [34; 32; 45; 45; 32; 34; 36; 123; 99; 117; 114; 125; 34; 41].
+Proof. exact BashValues.bash_value_arm_text. Qed.
+Print Assumptions C16_bash_value_arm_text.
+
+Theorem C16_bash_value_hint : forall o,
+  possible_values o = None ->
+  vals_kind o = match a_get_hint o with HDirPath => VNothing | HOther => VCur | _ => VFiles end.
+Proof. exact BashValues.bash_value_hint. Qed.
+Print Assumptions C16_bash_value_hint.
+
+(** satisfiable: [--color] / [-c] / visible alias [--colour], values always, never, secret (hidden), explicit [ValueHint::Other]:
+    every hypothesis holds; [p --colour a] is answered with [always], [p -c ""] with [always never] *)
+Theorem C16_bash_value_nonvacuous :
+  exists t, c_bin (BashValues.bv_root HOther) = Some [112] /\ linked (BashValues.bv_root HOther) /\
+    mangle_safe (BashValues.bv_root HOther) [112] /\
+    bash_table (BashValues.bv_root HOther) = Some t /\ reach (BashValues.bv_root HOther) [] [] (BashValues.bv_root HOther) /\
+    In (BashValues.bv_opt HOther) (get_opts (BashValues.bv_root HOther)) /\
+    In [45; 45; 99; 111; 108; 111; 117; 114] (BashValues.opt_keys (BashValues.bv_opt HOther)) /\
+    (forall o', In o' (get_opts (BashValues.bv_root HOther)) ->
+                In [45; 45; 99; 111; 108; 111; 117; 114] (BashValues.opt_keys o') -> o' = BashValues.bv_opt HOther) /\
+    possible_values (BashValues.bv_opt HOther) =
+      Some [mkPv [97; 108; 119; 97; 121; 115] false; mkPv [110; 101; 118; 101; 114] false; mkPv [115; 101; 99; 114; 101; 116] true] /\
+    a_get_hint (BashValues.bv_opt HOther) = HOther /\
+    bash_complete t [[112]; [45; 45; 99; 111; 108; 111; 117; 114]; [97]] = Some [[97; 108; 119; 97; 121; 115]] /\
+    bash_complete t [[112]; [45; 99]; []] = Some [[97; 108; 119; 97; 121; 115]; [110; 101; 118; 101; 114]].
+Proof. exact BashValues.bash_value_hyps. Qed.
+Print Assumptions C16_bash_value_nonvacuous.
+
+(** class boundary (observation O1 of the notes, corpus [bash.regressions]; validated under the installed bash): with
+    [ValueHint::FilePath] the arm runs under [IFS=$'\n'] and [compgen -W "always never"] yields ONE word, not a possible value *)
+Theorem C16_bash_value_filepath_refuted :
+  exists t vs, bash_table (BashValues.bv_root HFilePath) = Some t /\ possible_values (BashValues.bv_opt HFilePath) = Some vs /\
+    bash_complete t [[112]; [45; 45; 99; 111; 108; 111; 114]; []] =
+      Some [[97; 108; 119; 97; 121; 115; 32; 110; 101; 118; 101; 114]] /\
+    ~ In [97; 108; 119; 97; 121; 115; 32; 110; 101; 118; 101; 114] (map pv_name vs).
+Proof. exact BashValues.bash_value_filepath_refuted. Qed.
+Print Assumptions C16_bash_value_filepath_refuted.
+
+(** [Complete/BashUser.v].  [C16_bash_table] for [generate] on a user tree: [linked] is no hypothesis any more ([build]
+    establishes it for a tree without explicit bin names: [C16_build_linked]), and the script [generate_bash] writes is the
+    rendering of the table *)
+Theorem C16_bash_generate_table : forall c bin b,
+  BuildLinked.nb c = true -> build (set_bin_name c bin) = Some b -> mangle_safe b bin ->
+  exists t, bash_table b = Some t /\ generate_bash c bin = Some (render t) /\
+    forall w0 ws ns n, reach b ws ns n ->
+      fold_left (step (k_label (t_root t)) w0 (t_trans t)) (w0 :: ws) [] = fn_of (mangle bin) ns /\
+      exists k, lookup_case t (fn_of (mangle bin) ns) = Some k /\
+                opts_tokens n = Some (k_opts k) /\ k_details k = option_details n /\
+                k_level k = N.of_nat (S (List.length ws)).
+Proof. exact BashUser.bash_generate_table. Qed.
+Print Assumptions C16_bash_generate_table.
+
+(** [mangle_safe] of the built tree from the user's tree: names and sibling distinctness are carried over; what remains is the
+    injectivity of the mangled function names ... *)
+Theorem C16_build_mangle_safe : forall c bin b,
+  build (set_bin_name c bin) = Some b -> dd_safe bin = true -> bin <> [] ->
+  siblings_ok c -> BuildSkeleton.help_free false c = true -> (forall n, desc c n -> dd_safe (c_name n) = true) ->
+  (forall f n1 n2, node_at (mangle bin) b f n1 -> node_at (mangle bin) b f n2 -> n1 = n2) ->
+  mangle_safe b bin.
+Proof. exact BashUser.build_mangle_safe. Qed.
+Print Assumptions C16_build_mangle_safe.
+
+(** ... which holds when no subcommand name contains a hyphen ([bash_name] = [dd_safe] and no [-]: [mangle] is then the identity
+    on the names and the [__]-joined path splits back) ... *)
+Theorem C16_bash_names_determine_node : forall c r,
+  siblings_ok c -> (forall n, desc c n -> BashUser.bash_name (c_name n) = true) ->
+  forall f n1 n2, node_at r c f n1 -> node_at r c f n2 -> n1 = n2.
+Proof. exact BashUser.ms_inj_plain. Qed.
+Print Assumptions C16_bash_names_determine_node.
+
+(** ... so for such trees every hypothesis is on the tree the user wrote *)
+Theorem C16_bash_generate_table_plain : forall c bin,
+  BuildLinked.nb c = true -> dd_safe bin = true -> bin <> [] -> siblings_ok c -> BuildSkeleton.help_free false c = true ->
+  (forall n, desc c n -> BashUser.bash_name (c_name n) = true) ->
+  exists b t, build (set_bin_name c bin) = Some b /\ bash_table b = Some t /\ generate_bash c bin = Some (render t) /\
+    forall w0 ws ns n, reach b ws ns n ->
+      fold_left (step (k_label (t_root t)) w0 (t_trans t)) (w0 :: ws) [] = fn_of (mangle bin) ns /\
+      exists k, lookup_case t (fn_of (mangle bin) ns) = Some k /\
+                opts_tokens n = Some (k_opts k) /\ k_details k = option_details n /\
+                k_level k = N.of_nat (S (List.length ws)).
+Proof. exact BashUser.bash_generate_table_plain. Qed.
+Print Assumptions C16_bash_generate_table_plain.
+
+Theorem C16_bash_generate_table_plain_nonvacuous :
+  BuildLinked.nb BashUser.bu_root = true /\ dd_safe [109; 121; 45; 112; 114; 111; 103] = true /\
+  [109; 121; 45; 112; 114; 111; 103] <> @nil N /\ siblings_ok BashUser.bu_root /\
+  BuildSkeleton.help_free false BashUser.bu_root = true /\
+  (forall n, desc BashUser.bu_root n -> BashUser.bash_name (c_name n) = true) /\
+  exists b n, build (set_bin_name BashUser.bu_root [109; 121; 45; 112; 114; 111; 103]) = Some b /\
+    reach b [[104; 101; 108; 112]; [97; 100; 100]; [120]] [[104; 101; 108; 112]; [97; 100; 100]; [120]] n.
+Proof. exact BashUser.bash_generate_table_plain_hyps. Qed.
+Print Assumptions C16_bash_generate_table_plain_nonvacuous.
